@@ -133,9 +133,13 @@ OutsideLines(s, t, start, end, stmt) ==
 NodePos(s, p) == PPos(PNodeAt(s.srcP, p))
 Positioned(s, p) == Len(NodePos(s, p)) = 4
 
+(* a decorated def / class begins at its first decorator line (the node position is that of `def` / `class`)    *)
+WinStart(s, p) == LET d == PFieldSeq(PNodeAt(s.srcP, p), "decorator_list")
+                  IN IF d # <<>> /\ Len(PPos(d[1])) = 4 THEN <<PPos(d[1])[1], 0>>
+                     ELSE <<NodePos(s, p)[1], NodePos(s, p)[2]>>
 TextClauses(pfx, s, t, paths, stmt) ==
   IF paths = {} \/ ~Sync(s) \/ ~t.srcOk \/ ~s.tokOk \/ ~t.tokOk \/ \E p \in paths : ~Positioned(s, p) THEN {}
-  ELSE LET starts == {<<NodePos(s, p)[1], NodePos(s, p)[2]>> : p \in paths}
+  ELSE LET starts == {WinStart(s, p) : p \in paths}
            ends   == {<<NodePos(s, p)[3], NodePos(s, p)[4]>> : p \in paths}
            start  == CHOOSE a \in starts : \A b \in starts : PosLE(a, b)
            end    == CHOOSE a \in ends : \A b \in ends : PosLE(b, a)
@@ -227,24 +231,24 @@ WholeArgsOne(K, m) == /\ Kind(K.M[m].x) = "arguments" /\ NParams(K.M[m].x) = 1
                       /\ (TSlotTag(K.T[1]) = "" \/ \E o \in G!TopOccs(K, m) : o.g = "")
 (* a slice capture over the REAL field Call.args / ClassDef.bases with a keyword written between two captured    *)
 (* elements: not contiguous in the source                                                                       *)
-ArgsNonContig(K, m, st) ==
+ArgsNonContig(K, m, q0) ==
   \E i \in 1..Len(K.M[m].caps) :
     LET cap == K.M[m].caps[i]  n == Len(cap.el) IN
     /\ cap.t = "seq" /\ n >= 2 /\ cap.el[1][1].h /\ cap.el[n][1].h
     /\ (\E o \in G!TopOccs(K, m) : o.g = cap.tag)
     /\ LET p1 == cap.el[1][1].p  pn == cap.el[n][1].p IN
        /\ Len(p1) >= 1 /\ p1[Len(p1)].n \in {"args", "bases"} /\ pn[Len(pn)].n = p1[Len(p1)].n
-       /\ LET par == PNodeAt(st.liveP, SubSeq(p1, 1, Len(p1) - 1))
+       /\ LET par == PNodeAt(q0.liveP, SubSeq(p1, 1, Len(p1) - 1))
               kws == PFieldSeq(par, "keywords")
-              a == PPos(PNodeAt(st.liveP, p1))  b == PPos(PNodeAt(st.liveP, pn))
+              a == PPos(PNodeAt(q0.liveP, p1))  b == PPos(PNodeAt(q0.liveP, pn))
           IN Len(a) = 4 /\ Len(b) = 4 /\
              \E k \in 1..Len(kws) : Len(PPos(kws[k])) = 4 /\ PosLess(a, PPos(kws[k])) /\ PosLess(PPos(kws[k]), b)
-Detail(K, st) == (IF \E m \in K.Sel : YieldArg(K, m) THEN "/yield-arg" ELSE "")
+Detail(K, q0) == (IF \E m \in K.Sel : YieldArg(K, m) THEN "/yield-arg" ELSE "")
              \o (IF \E m \in K.Sel : MissingInBoolOp(K, m) THEN "/missing-in-boolop" ELSE "")
              \o (IF \E m \in K.Sel : WholeArgsOne(K, m) THEN "/whole-arguments-one" ELSE "")
              \o (IF K.nested /\ (Len(K.T) > 1 \/ (Cfg.replModule /\ Cfg.cat = "stmt")) THEN "/slice-template" ELSE "")
              \o (IF K.nested /\ \E m \in K.Sel : \E o \in G!TopOccs(K, m) : o.g = "" /\ o.flat THEN "/whole-flatten" ELSE "")
-             \o (IF \E m \in K.Sel : ArgsNonContig(K, m, st) THEN "/capture-args-noncontiguous" ELSE "")
+             \o (IF \E m \in K.Sel : ArgsNonContig(K, m, q0) THEN "/capture-args-noncontiguous" ELSE "")
 
 DoneClauses(s, e) ==
   LET t  == e.post
